@@ -6,7 +6,7 @@ from common import hexs
 ID = "C14"
 DRIVER = "cluster"
 MODEL_FILES = ["Model/Base.v", "Model/Parse.v", "Model/Node.v", "Model/Pending.v", "Model/Oplog.v", "Model/Cluster.v"]
-THEOREMS = ["C14_secondary_never_fans_out", "C14_secondary_repl_one_node", "C14_secondary_poll_never_fans_out", "C14_fan_out_spec", "C14_fan_out_exact", "C14_leader_repl_one"]
+THEOREMS = ["C14_secondary_never_fans_out", "C14_secondary_repl_one_node", "C14_secondary_poll_never_fans_out", "C14_fan_out_spec", "C14_fan_out_exact", "C14_leader_repl_one", "C14_primary_write_queues", "C14_replicated_line_applies"]
 STRENGTH = {t: "proof-unbounded" for t in THEOREMS}
 RULE = ("every client-visible command (data commands, resolve on an arbiter database, snapshot, create-user, set-permissions, increment, "
         "remove, create-db, watch/keys/get, refused commands) issued on every node of 2- and 3-node clusters (exhaustive: command x node "
